@@ -747,6 +747,74 @@ def run(prop, tier, seed, timeout_s, args, t_start):
         except Exception:
             traceback.print_exc()
             return 3
+    # --- C functions (vc/cvc.py): VCs from clang's AST of the working tree, bit-vector back end ----------------
+    extra["c_functions"] = []
+    cspecs = list(getattr(mod, "CPROOFS", []))
+    if cspecs and not args.only:
+        from . import cvc
+        try:
+            cvc.dump_many(sorted({(c.file, c.filt) for c in cspecs}))
+        except Exception:
+            traceback.print_exc()
+            return 3
+        for c in cspecs:
+            try:
+                r = cvc.verify(c)
+            except cvc.Unsupported as e:
+                report["undecided"].append({"contract": c.name, "cfg": "-", "msg": f"outside the C subset: {e}",
+                                            "pc_status": "-"})
+                continue
+            except Exception:
+                traceback.print_exc()
+                return 3
+            xc = cvc.cross_check_cvc5([o for o in r["raw"]], limit=80 if tier == "quick" else 400)
+            if r["exits"] == 0 or not r["obligations"]:
+                print(f"ENGINE-GUARD: zero exits/obligations for C function {c.name}")
+                return 3
+            extra["c_functions"].append({"function": c.name, "file": c.file, "paths": r["paths"], "exits": r["exits"],
+                                         "obligations": len(r["obligations"]), "seconds": r["seconds"],
+                                         "cvc5_cross_check": {k: v for k, v in xc.items() if k != "sat_names"},
+                                         "note": c.note})
+            solver_ms += sum(o["ms"] for o in r["obligations"])
+            for rec in r["obligations"]:
+                report["obligations"].append(rec)
+                if rec["result"] == "unknown":
+                    continue
+                if rec["result"] == "proved":
+                    if rec["name"] in xc["sat_names"]:
+                        rec["result"] = "unknown"
+                        rec["raw"] = "z3 proved, cvc5 found a model: back ends disagree"
+                    continue
+                kf = known_for(known, rec["contract"], "-", rec["name"])
+                if kf is not None:
+                    rec["result"] = "known-finding"
+                    known_lines.append((kf.get("id", ""), kf.get("what", "")))
+                    continue
+                data = {"property": prop, "obligation": f"{rec['contract']} :: {rec['name']}", "kind": rec["kind"],
+                        "where": rec["where"], "model": rec.get("model", {}), "solver": rec["backend"],
+                        "reproduced": False, "observed": None, "rerun": f"cd {HERE} && ./check {prop} --tier quick"}
+                reproduced = False
+                if c.replay:
+                    try:
+                        cmd = [PYTHON, os.path.join(HERE, "replay", "run.py"), c.replay, json.dumps(rec.get("model", {})),
+                               json.dumps({"cfg": "-", "obligation": rec["name"], "prop": prop, "contract": rec["contract"]})]
+                        env = dict(os.environ, PYTHONPATH=os.environ.get("VERIF_REPO", "/repo"))
+                        pr = subprocess.run(cmd, capture_output=True, text=True, timeout=300, env=env, cwd=HERE)
+                        out = pr.stdout.strip().splitlines()
+                        try:
+                            ob = json.loads(out[-1])
+                        except Exception:
+                            ob = {"reproduced": False, "observed": (pr.stdout + pr.stderr)[-1500:]}
+                        reproduced = bool(ob.get("reproduced"))
+                        data["observed"] = ob.get("observed")
+                        data["replay_cmd"] = " ".join(repr(x) if " " in x or "{" in x else x for x in cmd)
+                    except Exception as e:
+                        data["observed"] = f"replay harness error: {e}"
+                data["reproduced"] = reproduced
+                if not reproduced:
+                    data["note"] = "no-failing-input-found: the obligation is refuted by the solver; the counter-model " \
+                                   "did not reproduce on the real code (or no witness builder exists)"
+                viol_lines.append((write_replay(prop, data), reproduced, rec))
     bounded_fail = []
     for fn in getattr(mod, "BOUNDED", []):
         try:
@@ -948,6 +1016,7 @@ def write_evidence(prop, mod, reg, gens, obl, extra, tier, seed, wall, solver_ms
             "solver_ms_total": solver_ms,
             "known_findings": sorted(known_ids),
             "tables": extra["tables"][:200],
+            "c_functions": extra.get("c_functions", []),
             "bounded": extra["bounded"],
             "not_covered": list(getattr(mod, "NOT_COVERED", [])),
             "undecided": report["undecided"][:50],
